@@ -350,3 +350,121 @@ Proof. intros HI Hm Hpr Hi. unfold macro_em. rewrite Hpr. cbn [negb].
       + rewrite fmt_w. exact Hf4. }
   destruct HI5 as [HI5 Hi5]. clearbody s5. apply Inv_ws.
   destruct rest; [exact HI5|]. rewrite Hi5. cbn [negb]. apply (Inv_eqd _ _ (err_eqd _ _) HI5). Qed.
+
+(* ---------- Sm ---------- *)
+Lemma get_close_punct_textual l s : fmt s = FX -> textual (snd (fst (get_close_punct l s))).
+Proof. intro Hf. unfold get_close_punct. destruct (rev l) as [|la rr]; [apply textual_nil|].
+  pose proof (is_punct_arg_eqd la s) as E. destruct (is_punct_arg la s) as [b s1]. cbn [snd] in E. destruct b; [|apply textual_nil].
+  destruct (render_text_escaped la s1) as [t Et]. destruct (render_text la s1) as [p s2]. cbn [fst snd] in *.
+  rewrite Et, (escape_fn_FX s1); [apply html_escape_textual|]. rewrite (fmt_eqd _ _ E). exact Hf. Qed.
+
+Theorem Inv_macro_sm s : Inv s -> markup_ok (mtags s) -> process s = true -> inl s = false ->
+  (par s = false -> verse s = false /\ scope_verse s = false) -> Inv (macro_sm s).
+Proof. intros HI Hm Hpr Hi Hv. unfold macro_sm.
+  pose proof (parse_opts_eqd specOptSm (args s) s) as E1. destruct (parse_opts specOptSm (args s) s) as [o s1]. cbn [snd] in E1.
+  pose proof (opt_render_eqd "id" o s1) as E2.
+  pose proof (opt_render_escaped "id" o s1) as Hid. destruct (opt_render "id" o s1) as [id s2]. cbn [fst snd] in *.
+  assert (E : s2 ~~ s) by (eapply eqd_trans; eauto). clear E2.
+  specialize (Hid ltac:(rewrite (fmt_eqd _ _ E1); apply HI)).
+  assert (Hpr2 : process s2 = true) by (rewrite (eqd_get process _ _ (fun _ => eq_refl) E); exact Hpr). rewrite Hpr2. cbn [negb].
+  assert (HI2 : Inv s2) by (apply (Inv_eqd _ _ E HI)).
+  destruct (po_args o) as [|a0 al] eqn:Epo; [apply (Inv_eqd _ _ (err_eqd _ _) HI2)|].
+  set (r3 := if Nat.ltb 1 (List.length (a0 :: al)) then get_close_punct (a0 :: al) s2 else (a0 :: al, [], s2)).
+  assert (H3 : snd r3 ~~ s2 /\ textual (snd (fst r3))).
+  { unfold r3. destruct (Nat.ltb 1 (List.length (a0 :: al))); [|split; [reflexivity|apply textual_nil]].
+    split; [apply get_close_punct_eqd|apply get_close_punct_textual; apply HI2]. }
+  destruct r3 as [[a punct] s3]. cbn [fst snd] in H3. destruct H3 as [E3 Hpunct].
+  assert (E3' : s3 ~~ s) by (eapply eqd_trans; eauto).
+  assert (HI3 : Inv s3) by (apply (Inv_eqd _ _ E3' HI)).
+  assert (Hmt3 : mtags s3 = mtags s) by (apply (eqd_get mtags _ _ (fun _ => eq_refl) E3')).
+  assert (Hi3 : inl s3 = false) by (rewrite (eqd_get inl _ _ (fun _ => eq_refl) E3'); exact Hi).
+  assert (Hv3 : par s3 = false -> verse s3 = false /\ scope_verse s3 = false).
+  { rewrite (scope_verse_eqd _ _ E3'), (eqd_get par _ _ (fun _ => eq_refl) E3'), (eqd_get verse _ _ (fun _ => eq_refl) E3'). exact Hv. }
+  destruct (Inv_begin_phrasing (flag "ns" o) s3 HI3 ltac:(rewrite Hmt3; exact Hm) Hi3 Hv3) as (HI4 & Hp4 & Hmt4 & Hi4 & Hsi4 & Hview4).
+  set (s4 := begin_phrasing (flag "ns" o) s3) in *. clearbody s4.
+  set (r5 := match opt "t" o with Some t => _ | None => _ end).
+  assert (E5 : snd r5 ~~ s4).
+  { unfold r5. destruct (opt "t" o) as [t|]; [|reflexivity].
+    pose proof (inlines_text_eqd t s4) as H. destruct (inlines_text t s4) as [tg s']. cbn [snd] in *.
+    destruct (has_key tg (mtags s')); [exact H|]. eapply eqd_trans; [apply err_eqd|exact H]. }
+  destruct r5 as [tag s5]. cbn [snd] in E5.
+  assert (HI5 : Inv s5) by (apply (Inv_eqd _ _ E5 HI4)).
+  assert (Hp5 : par s5 = true) by (rewrite (eqd_get par _ _ (fun _ => eq_refl) E5); exact Hp4).
+  assert (Hmt5 : mtags s5 = mtags s) by (rewrite (eqd_get mtags _ _ (fun _ => eq_refl) E5), Hmt4; exact Hmt3).
+  unfold begin_markup_block. rewrite (inv_fmt _ HI5).
+  destruct (Hm tag id Hid) as [[x [Ex Hx]] Hc]. rewrite (Ex s5 Hmt5).
+  pose proof (render_args_eqd a (w x s5)) as E7. pose proof (render_args_textual a (w x s5) ltac:(rewrite fmt_w; apply HI5)) as Ht.
+  destruct (render_args a (w x s5)) as [t s7]. cbn [fst snd] in *.
+  assert (Hf7 : fmt s7 = FX) by (rewrite (fmt_eqd _ _ E7), fmt_w; apply HI5).
+  assert (Hmt7 : mtags s7 = mtags s) by (rewrite (eqd_get mtags _ _ (fun _ => eq_refl) E7), mtags_w; exact Hmt5).
+  assert (Hp7 : par s7 = true) by (rewrite (eqd_get par _ _ (fun _ => eq_refl) E7), par_w; exact Hp5).
+  unfold end_markup_block. rewrite fmt_w, Hf7.
+  destruct (Hc punct Hpunct) as [y [Ey Hy]]. rewrite (Ey (w t s7)) by (rewrite mtags_w; exact Hmt7).
+  apply Inv_ws. apply (Inv_step s5 _ (x ++ t ++ y) HI5).
+  - rewrite out_w by (rewrite par_w, Hp7; discriminate). rewrite out_w by (rewrite Hp7; discriminate).
+    rewrite (out_eqd _ _ E7), out_w by (rewrite Hp5; discriminate). rewrite <- !app_assoc. reflexivity.
+  - unfold elems. rewrite !view_w, (view_eqd _ _ E7), view_w.
+    rewrite !run_app, Hx, Ht, Hy. reflexivity.
+  - rewrite !par_w, Hp7. discriminate.
+  - rewrite !fmt_w. exact Hf7.
+Qed.
+
+(* ---------- P without a title ---------- *)
+Lemma close_fold mt l : markup_ok mt -> forall s, fmt s = FX -> mtags s = mt ->
+  exists c, fold_left (fun a sc => end_markup_block (sc_tag sc) [] a) l s = wl c s /\
+            forall stk, run (flat c) (Txt, ielems mt l ++ stk) = (Txt, stk).
+Proof. intro Hm. induction l as [|sc r IH]; intros s Hf Ht.
+  - exists []. split; reflexivity.
+  - cbn [fold_left]. unfold end_markup_block at 2. rewrite Hf.
+    destruct (Hm (sc_tag sc) [] (ex_intro _ [] eq_refl)) as [_ Hc]. destruct (Hc [] textual_nil) as [x [Ex Hx]]. rewrite (Ex s Ht).
+    destruct (IH (w x s)) as [y [Ey Hy]]; [rewrite fmt_w; exact Hf|rewrite mtags_w; exact Ht|].
+    exists (y ++ [x]). split; [rewrite Ey, wl_app; reflexivity|].
+    intro stk. rewrite flat_app. change (flat [x]) with (x ++ []). rewrite app_nil_r, run_app. unfold ielems. cbn [map app]. rewrite Hx. apply Hy. Qed.
+
+Lemma parse_opts_nil sp s : parse_opts sp [] s = (mkPo [] [] [], s). Proof. reflexivity. Qed.
+
+Lemma Inv_regs0 s s' : out s' = out s -> view s' = view s -> buf s' = buf s -> format s' = format s -> Inv s -> Inv s'.
+Proof. intros Ho Hv Hb Hf [A B C]. split.
+  - unfold elems. rewrite Ho, Hv. exact A.
+  - assert (Hp : par s' = par s) by (exact (f_equal (fun v => fst (fst (fst (snd v)))) Hv)). rewrite Hp, Hb. exact B.
+  - unfold fmt in *. rewrite Hf. exact C. Qed.
+Section P.
+Variable pim : PIM.
+Theorem Inv_macro_p_plain s : Inv s -> markup_ok (mtags s) -> process s = true -> args s = [] ->
+  verse s = false -> scope_verse s = false -> Inv (macro_p pim s).
+Proof. intros HI Hm Hpr Ha Hvs Hsv. unfold macro_p. rewrite Hpr, Ha, parse_opts_nil. cbn [negb po_args].
+  pose proof (inv_fmt _ HI) as Hf.
+  destruct (par s) eqn:Ep.
+  - unfold close_spanning.
+    destruct (close_fold (mtags s) (rev (sinline s)) Hm s Hf eq_refl) as [c [Ec Hc]]. rewrite Ec.
+    assert (Hpc : par (wl c s) = true) by (rewrite par_wl; exact Ep).
+    set (s1 := process_paragraph (wl c s)).
+    assert (Hsv1 : scope_verse s1 = false).
+    { unfold scope_verse. change (sblock s1) with (let '(sb, _, _, _) := view (wl c s) in sb). rewrite view_wl. exact Hsv. }
+    rewrite Hsv1. cbn [andb]. unfold end_paragraph.
+    assert (Hf1 : fmt s1 = FX) by (change (fmt s1) with (fmt (wl c s)); rewrite fmt_wl; exact Hf). rewrite Hf1. unfold X.end_paragraph.
+    assert (Hp1 : par s1 = false) by reflexivity.
+    assert (Hw : w (R "</p>" ++ NLs) s1 = s1 <| wout ::= cons (R "</p>" ++ NLs) |>) by (unfold w; rewrite Hp1; reflexivity). rewrite Hw.
+    apply (Inv_step s _ (flat c ++ R "</p>" ++ NLs) HI).
+    + unfold out. cbn [wout buf]. unfold s1, process_paragraph, format_paragraph. rewrite fmt_wl, Hf. unfold X.format_paragraph, wo. cbn.
+      rewrite !flat_cons, flat_nil, app_nil_r. change (flat (wout (wl c s)) ++ flat (buf (wl c s))) with (out (wl c s)).
+      rewrite out_wl by (rewrite Ep; discriminate). unfold out. rewrite <- !app_assoc. reflexivity.
+    + unfold elems at 2. set (v2 := view _).
+      assert (Ev2 : v2 = (sblock s, dtags s, ttitscope s, (false, false, sinline s, mtags s))).
+      { unfold v2, view. cbn. unfold s1, process_paragraph, wo. cbn.
+        change (sblock (wl c s)) with (let '(sb, _, _, _) := view (wl c s) in sb).
+        change (dtags (wl c s)) with (let '(_, dt, _, _) := view (wl c s) in dt).
+        change (ttitscope (wl c s)) with (let '(_, _, t3, _) := view (wl c s) in t3).
+        change (sinline (wl c s)) with (let '(_, _, _, (_, _, si, _)) := view (wl c s) in si).
+        change (mtags (wl c s)) with (let '(_, _, _, (_, _, _, mt)) := view (wl c s) in mt).
+        rewrite view_wl. reflexivity. }
+      rewrite Ev2. unfold elems, view, elems_v. rewrite Ep, Hvs. cbn [app]. rewrite app_nil_r.
+      rewrite run_app. rewrite rev_app_distr, rev_cons1, <- app_assoc. unfold ielems at 1. rewrite <- map_rev. fold (ielems (mtags s) (rev (sinline s))).
+      rewrite Hc. reflexivity.
+    + reflexivity.
+    + exact Hf1.
+  - unfold end_paragraph. rewrite Hf. unfold X.end_paragraph.
+    apply (Inv_regs0 s); try reflexivity; [|exact HI].
+    unfold view. cbn. rewrite Ep, Hvs. reflexivity.
+Qed.
+End P.
